@@ -122,6 +122,8 @@ package provisioning
 //verif:loop 0 invariant k < len(ids) && len(ids) == len(processors) && forall m in [0, k + 1): ids[m] == processors[m].ID
 
 //verif:func (updateConnectorAction).update(a, ctx, cfg) (err)
+//verif:let c = result_of("ConnectorService.Update", 0)
+//verif:let procIDs = arg_of("builtin.copy", 0)
 //verif:call[remove-only-listed] ConnectorService.RemoveProcessor requires arg1 == cfg.ID && exists x in [0, len(liveCP(a.connectorService, cfg.ID))): liveCP(a.connectorService, cfg.ID)[x] == arg2
 //verif:ensures[position-kept] ptr(conn_inst(a.connectorService, cfg.ID), "*connector.Instance").State == old(ptr(conn_inst(a.connectorService, cfg.ID), "*connector.Instance").State)
 //verif:ensures[converges] err == nil ==> len(liveCP(a.connectorService, cfg.ID)) == len(cfg.Processors) && forall k in [0, len(cfg.Processors)): liveCP(a.connectorService, cfg.ID)[k] == cfg.Processors[k].ID
@@ -188,6 +190,9 @@ package provisioning
 //verif:def distinctPL(svc, id) = base(livePC(svc, id)) != base(livePP(svc, id)) || isnil(livePC(svc, id))
 
 //verif:func (updatePipelineAction).update(a, ctx, cfg) (err)
+//verif:let p = result_of("PipelineService.Update", 0)
+//verif:let connectorIDs = arg_of("builtin.copy", 0)
+//verif:let processorIDs = arg_of("builtin.copy", 0)
 //verif:assume distinctPL(a.pipelineService, cfg.ID) because "the two id lists of a pipeline instance are separate allocations (built by append / JSON decoding), never sub-slices of one another"
 //verif:call[remove-only-listed-connector] PipelineService.RemoveConnector requires arg1 == cfg.ID && exists x in [0, len(livePC(a.pipelineService, cfg.ID))): livePC(a.pipelineService, cfg.ID)[x] == arg2
 //verif:call[remove-only-listed-processor] PipelineService.RemoveProcessor requires arg1 == cfg.ID && exists x in [0, len(livePP(a.pipelineService, cfg.ID))): livePP(a.pipelineService, cfg.ID)[x] == arg2
